@@ -935,6 +935,10 @@ class Engine:
 
         while self.global_time < end_time or force_complete:
             full_step = math.inf
+            # the time of the earliest event, kept as an absolute time:
+            # global_time + (t - global_time) need not be t in floating
+            # point
+            next_time = math.inf
             self._remove_deleted_processes()
 
             # processes at quiet paths don't meet their execution condition,
@@ -982,6 +986,7 @@ class Engine:
                             # absolute timestep
                             timestep = future - self.global_time
                             full_step = min(full_step, timestep)
+                            next_time = min(next_time, future)
                         else:
                             # mark this path "quiet" so its time can be advanced
                             self.front[path]['update'] = (EmptyDefer(), store)
@@ -990,11 +995,13 @@ class Engine:
                         # absolute timestep
                         timestep = future - self.global_time
                         full_step = min(full_step, timestep)
+                        next_time = min(next_time, future)
 
                 else:
                     # don't shoot past processes that didn't run this time
                     process_delay = process_time - self.global_time
                     full_step = min(full_step, process_delay)
+                    next_time = min(next_time, process_time)
 
             # apply updates based on process times in self.front
             if full_step == math.inf:
@@ -1010,10 +1017,10 @@ class Engine:
                     self.front[quiet]['time'] = self.global_time
                     self.front[quiet]['update'] = {}
 
-            elif self._time_after(full_step) <= end_time:
+            elif next_time <= end_time:
                 # at least one process ran within the interval
                 # increase the time, apply updates, and continue
-                self.global_time = self._time_after(full_step)
+                self.global_time = next_time
 
                 # advance all quiet processes to current time
                 for quiet in quiet_paths:
@@ -1051,13 +1058,6 @@ class Engine:
 
             if force_complete and self.global_time == end_time:
                 force_complete = False
-
-    def _time_after(self, step: float) -> float:
-        """The global time after ``step``, on the decimal grid if any."""
-        time = self.global_time + step
-        if self.global_time_precision is not None:
-            time = round(time, self.global_time_precision)
-        return time
 
     @staticmethod
     def _end_process_if_parallel(process: Process) -> None:
